@@ -396,7 +396,7 @@ def rule_predicates(F, R):
         thr = [x for x in g.nodes() if assignment(x) and pp(assignment(x)[0]) == "cache.m_threshold"]
         t0 = [x for x in g.nodes() if assignment(x) and pp(assignment(x)[0]) == "cache.m_tables.array(0)"]
         t1 = [x for x in g.nodes() if assignment(x) and pp(assignment(x)[0]) == "cache.m_tables.array(1)"]
-        okf = len(up) == 1 and "ivalue1.second" in pp(up[0]) and len(guards) == 1 and len(thr) == 1 and pp(assignment(thr[0])[1]) == CT("(0.5 * (ivalue1.first + ivalue2.first))") and \
+        okf = len(up) == 1 and "ivalue1.second" in pp(up[0]) and len(guards) == 1 and len(thr) == 1 and _is_midpoint(g, assignment(thr[0])[1], R) and \
             len(t0) == 1 and pp(assignment(t0[0])[1]) == "cache.output_neg()" and len(t1) == 1 and pp(assignment(t1[0])[1]) == "cache.output_pos()"
         # the update of the lower side precedes the scoring in the same iteration
         if okf:
@@ -443,7 +443,7 @@ def rule_predicates(F, R):
                              asg.get("cache.m_tables.array(0)") == "cache.beta_%s(threshold)" % side and
                              asg.get("cache.m_tables.array(1)") == CT("((-threshold) * cache.m_tables.array(0))") and asg.get("cache.m_threshold") == "threshold")
         thr = [v for v in g.nodes() if v["k"] == "var" and v["n"] == "threshold" and v.get("c")]
-        okf = sides == [True, True] and len(thr) == 1 and pp(thr[0]["c"][0]) == CT("(0.5 * (ivalue1.first + ivalue2.first))")
+        okf = sides == [True, True] and len(thr) == 1 and _is_midpoint(g, thr[0]["c"][0], R)
     R.check(okf, "R-C10-3", "hinge sweep", hf[0].loc() if hf else "src/wlearner/hinge.cpp:1", "left hinge <-> lower side slope, right hinge <-> upper side slope, intercept = -threshold*slope",
             "the hinge sweep no longer stores (side, slope, intercept) consistently")
     # affine
@@ -946,6 +946,12 @@ def rule_sweep_coverage(F, R):
                                 "the pair of the two largest values (size-2, size-1) is never examined - the threshold that singles out the largest value is never scored"
                                 if last_pair is not None and sp.simplify(last_pair - (SV - 2)) != 0 else "the first pairs are skipped"))
     R.floor("R-C10-11", n, 2, "threshold sweeps (stump, hinge)")
+
+
+def _is_midpoint(g, node, R):
+    """the expression is algebraically the mid-point of the two neighbouring values (any spelling: 0.5 * (a + b), (a + b) / 2, a + (b - a) / 2)"""
+    z, _ = kalg.compare_expr(g, node, "(a + b) / 2", atoms={"ivalue1.first": "a", "ivalue2.first": "b"}, seed=R.seed)
+    return bool(z)
 
 
 def run(ctx):
